@@ -194,7 +194,10 @@ func (o *observer) check(step string) *pbt.Fail {
 	var v interface{}
 	var err error
 	if p, hung := o.call(func() { v, err = o.h.Result() }); p != "" || hung {
-		return pbt.Failf("panic:Result", fmt.Sprintf("Result() after %s: %s hung=%v", step, p, hung))
+		if hung {
+			return pbt.Failf("inconclusive:hang", "Result() after "+step+" did not return within 60 s")
+		}
+		return pbt.Failf("panic:Result", fmt.Sprintf("Result() after %s: %s", step, p))
 	}
 	if v != nil && err != nil {
 		return pbt.Failf("result-both", fmt.Sprintf("after %s Result() returns both a value and an error", step))
@@ -523,7 +526,7 @@ func conRun(c conCase) *pbt.Fail {
 	if ended {
 		select {
 		case <-drained:
-		case <-time.After(20 * time.Second):
+		case <-time.After(180 * time.Second):
 			close(stopDrain)
 			return pbt.Failf("ended-but-channel-open", "Result() reports the end but the outgoing channel was not closed")
 		}
